@@ -367,13 +367,14 @@ package internal
 //@ fnparam TrimmedCSVSeq$1.yield(p)
 //@   pure
 //@ func TrimmedCSVSeq$1
-//@   property C12 C06 C02
+//@   property C12 C06 C02 C18
 //@   requires s != nil && yield != nil
 //@   assigns *
 //@   loop 0 invariant *s == old(*s) && 0 <= rangeint_iter && rangeint_iter < len(*s)
 //@   loop 0 invariant inQuotes == csvQ(*s, rangeint_iter)                                           # name: splits-only-outside-quoted-strings
 //@   loop 0 invariant escape == csvE(*s, rangeint_iter)                                             # name: backslash-escapes-the-next-byte
 //@   loop 0 decreases len(*s) - rangeint_iter                                                       # name: tokenizer-terminates   props: C10 C12
+//@   loop 0 return-requires stopped                                                                 # name: scan-ends-early-only-when-the-consumer-stops-it   props: C12 C18 C06 C02
 //@ func TrimmedCSVSeq
 //@   trusted
 //@   pure
@@ -713,7 +714,7 @@ package internal
 // and touches nothing else (RFC 9111 3.2).
 //@ spec func omitted304(h http.Header, k string) bool = isHop(h, k) || k == "Content-Length"
 //@ func updateStoredHeaders
-//@   property C08 C05
+//@   property C08 C05 C01 C11
 //@   requires storedResp != nil && storedResp.Header != nil && resp != nil && resp.Header != nil && resp.Header != storedResp.Header
 //@   assigns map(storedResp.Header)
 //@   loop 0 invariant forall k string :: has(omitted, k) == omitted304(resp.Header, k)
@@ -1094,7 +1095,7 @@ package internal
 //@ spec func b64std(s string) string
 //@ spec func hasPfx(s string, p string) bool = len(p) <= len(s) && s[:len(p)] == p
 //@ spec func escOf(s string) string
-//@ axiom esc-def: forall s string :: escOf(s) == "\x00b64:" + b64std(s) && validUTF8(escOf(s)) && hasPfx(escOf(s), "\x00b64:") && escOf(s)[5:len(escOf(s))] == b64std(s)
+//@ axiom esc-def: forall s string {escOf(s)} :: escOf(s) == "\x00b64:" + b64std(s) && validUTF8(escOf(s)) && hasPfx(escOf(s), "\x00b64:") && escOf(s)[5:len(escOf(s))] == b64std(s)
 //@ spec func jsonEnc(s string) string = ite(validUTF8(s) && !hasPfx(s, "\x00b64:"), s, escOf(s))
 // Round trip: whatever s is, jsonEnc(s) is either s itself and not marked (fromJSONSafe returns it
 // as written) or escOf(s) (fromJSONSafe returns s by decoding-undoes-encoding).
